@@ -165,3 +165,18 @@ PROPS["C04"] = {
                    "(HashMap), disas_ext_inst and the format!-based Disassemble impls, Assemble (unit assemble).",
     "assumptions": [],
 }
+
+PROPS["C02"] = {
+    "title": "Assemble and parse are exact inverses on grammar-conforming instructions",
+    "units": {"quick": ["assemble", "kani_assemble_str"], "thorough": ["assemble", "kani_assemble_str", "parser_core", "decoder"]},
+    "engines": ["verus", "kani"],
+    "level": "proof",
+    "technique": "Verus contracts on the extracted Operand/Instruction/ModuleHeader/Block/Function assemble_into against an encoding spec generated from the payload types of dr::Operand; assemble_str by bounded Kani",
+    "design_ref": "DESIGN.md §4 C02",
+    "explanation": "Encoding side proved for all values: every operand variant appends exactly the words the specification prescribes for its payload type "
+                   "(enumerant number, mask bits, word, low-then-high for 64 bits, NUL-terminated padded string words), an instruction is its first word "
+                   "(word count << 16 | opcode, word count = words emitted) followed by result type, result id and the operand encodings in order. "
+                   "The parser side is proved to consume exactly the declared extent (C03). NOT proved in this revision: the value-level inverse lemma "
+                   "parse(assemble(i)) == i (needs value postconditions on the generated operand parsers); assemble_str is a BOUNDED Kani check.",
+    "assumptions": [],
+}
